@@ -30,4 +30,45 @@ Proof.
   apply new_fast_sensor_le.
 Qed.
 
+Lemma new_fast_ranges b i o t acts conns biases (fn : fnet F) :
+  new_fast b i o t acts conns biases = Ok fn ->
+  (forall c, In c (f_conns fn) -> fl_src c < f_total fn /\ fl_tgt c < f_total fn) /\
+  f_sensor fn + f_out fn <= f_total fn.
+Proof.
+  unfold new_fast. destruct (_ && _) eqn:E; [|discriminate].
+  intros H. injection H as <-. unfold f_sensor. simpl.
+  repeat (apply andb_true_iff in E; destruct E as [E ?]). apply Nat.leb_le in E. split; [|lia].
+  intros c Hc. rewrite forallb_forall in H. specialize (H c Hc). apply andb_true_iff in H.
+  destruct H as [A B]. apply Nat.ltb_lt in A. apply Nat.ltb_lt in B. auto.
+Qed.
+
+Lemma fast_of_net_ranges (n : net F) (fn : fnet F) :
+  fast_of_net NF n = Ok fn ->
+  (forall c, In c (f_conns fn) -> fl_src c < f_total fn /\ fl_tgt c < f_total fn) /\
+  f_sensor fn + f_out fn <= f_total fn.
+Proof.
+  unfold fast_of_net.
+  repeat match goal with
+         | |- context [match ?x with _ => _ end] =>
+           match x with
+           | new_fast _ _ _ _ _ _ _ => fail 1
+           | _ => destruct x as [[[? ?] ?]| | | | |] || destruct x as [[? ?]| | | | |]
+           end
+         end; simpl; try discriminate.
+  apply new_fast_ranges.
+Qed.
+
 End FlushBuild.
+
+(* the binary64 activation table never reports OutOfFuel (it has no fuel) *)
+From NeatModel Require Import F64 C12Cases.
+Lemma fact_no_fuel (t : table) (c : Z) (x : float) : fact t c x <> OutOfFuel.
+Proof.
+  assert (G : table_lookup t c x <> OutOfFuel).
+  { induction t as [|[[c0 i0] o0] rest IH]; simpl; [discriminate|].
+    destruct ((c0 =? c)%Z && feqb_exact i0 x); [discriminate|exact IH]. }
+  unfold fact.
+  repeat match goal with
+         | |- context [match ?z with _ => _ end] => destruct z; try discriminate; try exact G
+         end.
+Qed.
